@@ -17,7 +17,8 @@
 (* analyzer, where which diagnostic must appear.                           *)
 (***************************************************************************)
 EXTENDS Integers, Sequences, FiniteSets, TLC, Json
-CONSTANT WithInject      \* FALSE: conforming programs only; TRUE: also one injection per program
+CONSTANTS WithInject,     \* FALSE: conforming programs only; TRUE: also one injection per program
+          Cover           \* TRUE: the small exhaustive covering family
 VARIABLES phase, f1, f2, f3, lay, mainseq, inj
 vars == <<phase, f1, f2, f3, lay, mainseq, inj>>
 \* inj = <<kind, function, variant>>
@@ -27,8 +28,9 @@ I(t, g) == L("    " \o t, g)
 S(n) == ToString(n)
 
 \* ------------------------------------------------------------------ leaf templates (arity, returns)
-Leaves == {"add2", "sumloop", "sign", "print", "local", "bytes", "counted", "tablecheck", "max2"}
-Arity(k) == CASE k \in {"add2", "max2", "twice"} -> 2 [] k \in {"tablecheck", "loadmax"} -> 0 [] OTHER -> 1
+Leaves == {"add2", "sumloop", "sign", "print", "local", "bytes", "counted", "tablecheck", "max2",
+           "rotloop", "readint", "sbrk", "randrange"}
+Arity(k) == CASE k \in {"add2", "max2", "twice", "randrange"} -> 2 [] k \in {"tablecheck", "loadmax", "readint"} -> 0 [] OTHER -> 1
 Returns(k) == k # "print"
 
 Leaf(n, k) ==
@@ -57,6 +59,17 @@ Leaf(n, k) ==
     [] k = "counted" ->   \* the result is set before a loop that does not touch it
         << L(n \o ":", n \o ":label"), I("mv t1, a0", n \o ":first"), I("li a0, 1", ""), L(n \o "_loop:", ""), I("addi t1, t1, -1", ""),
            I("bnez t1, " \o n \o "_loop", ""), I("ret", n \o ":ret") >>
+    [] k = "rotloop" ->   \* bottom-tested loop (the body is entered only by a backward branch) in a function with a frame
+        << L(n \o ":", n \o ":label"), I("addi sp, sp, -16", n \o ":first"), I("sw s0, 8(sp)", ""), I("li s0, 0", ""),
+           I("j " \o n \o "_test", n \o ":jump"), L(n \o "_body:", ""), I("add s0, s0, a0", ""), I("addi a0, a0, -1", ""),
+           L(n \o "_test:", ""), I("bgtz a0, " \o n \o "_body", ""), I("mv a0, s0", n \o ":retval"), I("lw s0, 8(sp)", ""),
+           I("addi sp, sp, 16", n \o ":free"), I("ret", n \o ":ret") >>
+    [] k = "readint" ->   \* the result comes from an environment call and is handed back untouched
+        << L(n \o ":", n \o ":label"), I("li a7, 5", n \o ":first"), I("ecall", n \o ":ecall"), I("ret", n \o ":ret") >>
+    [] k = "sbrk" ->      \* environment call whose result register is also its argument
+        << L(n \o ":", n \o ":label"), I("li a7, 9", n \o ":first"), I("ecall", n \o ":ecall"), I("ret", n \o ":ret") >>
+    [] k = "randrange" -> \* two arguments, result in the first
+        << L(n \o ":", n \o ":label"), I("li a7, 42", n \o ":first"), I("ecall", n \o ":ecall"), I("ret", n \o ":ret") >>
     [] k = "local" ->
         << L(n \o ":", n \o ":label"), I("addi sp, sp, -8", n \o ":first"), I("sw a0, 4(sp)", ""), I("lw t0, 4(sp)", ""),
            I("addi sp, sp, 8", n \o ":free"), I("slli a0, t0, 1", n \o ":retval"), I("ret", n \o ":ret") >>
@@ -213,13 +226,16 @@ RECURSIVE FirstLabelLine(_, _)
 FirstLabelLine(p, i) == IF i > 1 /\ IsLabelLine(p[i - 1]) THEN FirstLabelLine(p, i - 1) ELSE i
 
 \* ------------------------------------------------------------------ state machine
-MainSeqs == UNION { [1..n -> (1..3) \X {2, 4}] : n \in 1..3 }
+\* Cover = TRUE: a small exhaustive family in which every template meets every way its result is consumed
+\* (run in full by every check; the large family is sampled with tlc -simulate)
+MainSeqs == IF Cover THEN [1..2 -> (1..2) \X {2, 4}] ELSE UNION { [1..n -> (1..3) \X {2, 4}] : n \in 1..3 }
 Init == phase = "start" /\ f1 = "" /\ f2 = "" /\ f3 = "" /\ lay = <<16, 12, 8, 4>> /\ mainseq = <<>> /\ inj = <<"", "", 1>>
 PickFns == /\ phase = "start"
            /\ \E a \in Leaves \ {"print"}, b \in {"wrap", "rec", "twice", "loadmax"}, c \in Leaves \cup {"none"}, ly \in Layouts :
                 \* the callee F1 must have the arity its caller F2 passes
                 /\ (b \in {"wrap", "twice"} => Arity(a) = 1)
                 /\ (b = "loadmax" => Arity(a) = 2)
+                /\ (Cover => c = "none" /\ ly = <<16, 12, 8, 4>>)
                 /\ f1' = a /\ f2' = b /\ f3' = c /\ lay' = ly
            /\ phase' = "main" /\ UNCHANGED <<mainseq, inj>>
 PickMain == /\ phase = "main"
@@ -230,7 +246,7 @@ PickMain == /\ phase = "main"
                  /\ mainseq' = ms
             /\ phase' = (IF WithInject THEN "inject" ELSE "emit") /\ UNCHANGED <<f1, f2, f3, lay, inj>>
 PickInj == /\ phase = "inject"
-           /\ \E k \in InjKinds, fn \in {"F1", "F2"}, v \in 1..3 :
+           /\ \E k \in InjKinds, fn \in {"F1", "F2"}, v \in (IF Cover THEN {1} ELSE 1..3) :
                 /\ Inject(Program(f1, f2, f3, lay, mainseq), k, fn, v).ok
                 /\ inj' = <<k, fn, v>>
            /\ phase' = "emit" /\ UNCHANGED <<f1, f2, f3, lay, mainseq>>
